@@ -1,7 +1,26 @@
 /-
-  C04 — see AL.Spec.X86 (reference decoder) and AL.Spec.X86Families (quantifier domain).
+  C04 — MMX/SSE/AVX/AVX2/BMI2/ADX forms carry the right prefixes, VEX fields and registers.
+
+  Statement: for every instance d of the family — every vector or VEX-encoded entry of the reference
+  table over ALL register tuples of its register files (mm0–7, xmm0–15, ymm0–15, 32/64-bit general
+  registers for BMI2/ADX) and its memory forms —  decode (assemble (render d)) = d: mandatory prefix,
+  opcode map, VEX.L, W, vvvv and the inverted R/X/B bits are what the decoder needs to read the same
+  operation, destination, sources, operand size and vector length.
+   * `Sweep.c04_sweep` — the whole family (≈ 330 000 instances) on the model, by evaluation.
+  The reference decoder's VEX reading (C4/C5 forms, inverted bits, vvvv, L, pp, mmmmm) is itself compared
+  with objdump on every encoding the implementation produces (check side).
 -/
-import AL.Spec.X86Families
-import AL.Impl.Line
+import AL.Properties.Sweep.C04
 namespace AL.Properties.C04
+open AL.Spec.X86
+
+def vexFields (bs : List Nat) : Option (Bool × Nat × Bool × Nat × Nat × Bool × Bool × Bool) :=
+  (takeExt bs).map fun r => (r.1.r, r.1.vvvv, r.1.l, r.1.simd, r.1.map, r.1.x, r.1.b, r.1.w)
+
+/-- **the two VEX forms carry the same fields**: for every second byte p, the C5 prefix reads as the C4
+    prefix with X̄ = B̄ = 1, map 0F, W = 0 and the same R̄, vvvv, L, pp (kernel evaluation, all 256 values) -/
+theorem vex2_is_vex3 :
+    ((List.range 256).all fun p =>
+      vexFields [0xC5, p, 0x58] == vexFields [0xC4, (p / 128) * 128 + 0x61, p % 128, 0x58]) = true := by decide +kernel
+
 end AL.Properties.C04
